@@ -76,25 +76,42 @@ Definition of_obs (o : Obs) : St :=
      susp := list_to_map (o_susp o); vstat := list_to_map (o_vstat o);
      stake := list_to_map (o_stake o); bounty := o_bounty o; malicious := []; height := 0; now := 0 |}.
 
-(* first step at which model and implementation differ: (step index, class);
+(* is this step inside the input region of a known trigger (evaluated on the model's pre-state)? *)
+Definition known_region (c : Cfg) (s : St) (o : Op) : bool :=
+  match o with
+  | OBegin h _ low =>
+      (blockVotesDiff c <? h) &&
+      existsb (fun a => is_active s a && match susp s !! a with Some l => lvh_frozen l && (l_status l =? BYZ) | None => false end) low
+  | OEnd q _ =>
+      ((height s <=? blockVotesDiff c) && existsb (fun a => is_frozen s a) (map_to_list (susp s)).*1) ||
+      (let active := (elect c s q).2 in
+       existsb (fun kr => float_tally_mismatch c active (count_choice YES (r_votes kr.2)) (count_choice NO (r_votes kr.2)))
+               (map_to_list (reqs s)))
+  | _ => false
+  end.
+
+(* first step at which model and implementation differ: (step index, class, known-region-seen);
    class 1 = ok/fail of a transaction, 8 = verdict events, 2..7 see state_diff *)
-Fixpoint first_mismatch (c : Cfg) (i : Z) (s : St) (steps : list Step) : option (Z * Z) :=
+Fixpoint first_mismatch (c : Cfg) (i : Z) (reg : bool) (s : St) (steps : list Step) : option (Z * Z * Z) :=
   match steps with
   | [] => None
   | st :: rest =>
+      let reg' := reg || known_region c s (s_op st) in
+      let r := if reg' then 1 else 0 in
       let '(s', ev) := step c s (s_op st) in
-      if is_tx (s_op st) && negb (Bool.eqb (ev_ok ev) (s_ok st)) then Some (i, 1)
-      else if negb (verdicts_match ev (s_verdicts st)) then Some (i, 8)
+      if is_tx (s_op st) && negb (Bool.eqb (ev_ok ev) (s_ok st)) then Some (i, 1, r)
+      else if negb (verdicts_match ev (s_verdicts st)) then Some (i, 8, r)
       else let d := state_diff s' (s_obs st) in
-           if d =? 0 then first_mismatch c (i + 1) s' rest else Some (i, d)
+           if d =? 0 then first_mismatch c (i + 1) reg' s' rest else Some (i, d, r)
   end.
 
+(* flat list: case, step, class, known-region flag *)
 Fixpoint model_mismatches (i : Z) (cs : list Case) : list Z :=
   match cs with
   | [] => []
   | c :: rest =>
-      match first_mismatch (c_cfg c) 0 (of_obs (c_init c)) (c_steps c) with
-      | Some (j, d) => i :: j :: d :: model_mismatches (i + 1) rest
+      match first_mismatch (c_cfg c) 0 false (of_obs (c_init c)) (c_steps c) with
+      | Some (j, d, r) => i :: j :: d :: r :: model_mismatches (i + 1) rest
       | None => model_mismatches (i + 1) rest
       end
   end.
